@@ -40,13 +40,13 @@ Proof.
     cbn. destruct (e_variants e) as [|v [|w vs]]; reflexivity.
   - unfold params_names. apply flat_map_ext. intros c. apply plain_param_decls.
 Qed.
-Lemma zod_type_names p : type_decls (zod_items p) = struct_names p ++ params_names p.
+Lemma zod_type_names p : type_decls (zod_items p) = map tdef_name (p_types p) ++ params_names p.
 Proof.
   unfold zod_items. rewrite !type_decls_app, !type_decls_flat_map.
   assert (flat_map (fun x => type_decls (zod_param_schema (p_map p) x)) (p_cmds p) = []) as ->.
   { induction (p_cmds p) as [|c r IH]; [reflexivity|]. cbn [flat_map]. rewrite zod_param_schema_decls, IH. reflexivity. }
   cbn [app]. f_equal.
-  - unfold struct_names. apply flat_map_ext. intros [s|e]; reflexivity.
+  - induction (p_types p) as [|d r IH]; [reflexivity|]. cbn [flat_map map]. rewrite IH. destruct d; reflexivity.
   - unfold params_names. apply flat_map_ext. intros c. apply zod_alias_decls.
 Qed.
 
@@ -56,18 +56,11 @@ Proof.
   cbn [existsb flat_map map]. destruct d as [s|e]; [|discriminate]. cbn [orb]. intros H. rewrite IH by exact H. reflexivity.
 Qed.
 
-Lemma names_equal p : has_enum p = false -> type_decls (zod_items p) = type_decls (plain_items p).
-Proof. intros H. rewrite zod_type_names, plain_type_names, no_enum_struct_names by exact H. reflexivity. Qed.
+Lemma names_equal p : type_decls (zod_items p) = type_decls (plain_items p).
+Proof. rewrite zod_type_names, plain_type_names. reflexivity. Qed.
 
-Lemma names_general p n :
-  In n (type_decls (plain_items p)) <-> In n (type_decls (zod_items p)) \/ In n (enum_names p).
-Proof.
-  rewrite zod_type_names, plain_type_names, !in_app_iff.
-  assert (In n (map tdef_name (p_types p)) <-> In n (struct_names p) \/ In n (enum_names p)) as Hs.
-  { unfold struct_names, enum_names. induction (p_types p) as [|d r IH]; [cbn; tauto|].
-    cbn [map flat_map]. rewrite !in_app_iff. destruct d as [s|e]; cbn [In tdef_name]; tauto. }
-  rewrite Hs. tauto.
-Qed.
+Lemma names_iff p n : In n (type_decls (plain_items p)) <-> In n (type_decls (zod_items p)).
+Proof. rewrite names_equal. tauto. Qed.
 
 (* every schema constant belongs to a type the plain module declares *)
 Definition schema_consts (p : proj) : list str :=
@@ -199,9 +192,11 @@ Definition p_enum : proj :=
   {| p_types := [DEnum {| e_name := L "Status"; e_variants := [L "Active"; L "Done"] |}];
      p_cmds := [{| c_tname := L "Get"; c_params := [{| m_key := L "s"; m_opt := false; m_ty := TCustom (L "Status") |}]; c_chans := [] |}];
      p_map := [] |}.
-Lemma refuted_enum : has_enum p_enum = true /\
-  type_decls (plain_items p_enum) = [L "Status"; L "GetParams"] /\ type_decls (zod_items p_enum) = [L "GetParams"] /\
-  v_tags (compare_modules (plain_items p_enum) (zod_items p_enum)) = [TgEnumAlias].
+(* the former witness of the enum class: since the repair both modes declare the same type names
+   and the oracle finds nothing *)
+Lemma enum_witness : has_enum p_enum = true /\
+  type_decls (plain_items p_enum) = [L "Status"; L "GetParams"] /\ type_decls (zod_items p_enum) = [L "Status"; L "GetParams"] /\
+  v_tags (compare_modules (plain_items p_enum) (zod_items p_enum)) = [].
 Proof. vm_compute. repeat split; reflexivity. Qed.
 
 (* a project outside every class: the oracle finds nothing on the model's modules *)
